@@ -204,6 +204,57 @@ void vf_harness(void) { int t; Var_clone(t); VF_CANARY(); }
 )
 UNITS += [clone_unit]
 
+# ---- Var(unsigned): the number held is the argument (values >= 2^31 do not fit the INT representation)
+ctor_unsigned = Unit(
+    'Var_ctor_unsigned', 'C04',
+    cuts=[TYPES(), Cut('cu', VC, r'^Var::Var\(unsigned y\)\s*$', members=('_type', '_i', '_d'))],
+    text=r'''
+#include "vf_base.h"
+@@types@@
+typedef struct VarN { int _type; union { double _d; int _i; }; } VarN;
+void Var_ctor_unsigned(VarN* self, unsigned y)
+__CPROVER_requires(__CPROVER_is_fresh(self, sizeof(VarN)))
+/* for EVERY 32-bit value: the Var holds exactly that number, as an int when it fits and as a double otherwise */
+__CPROVER_ensures((self->_type == INT && (long long)self->_i == (long long)y) || (self->_type == NUMBER && self->_d == (double)y))
+__CPROVER_assigns(*self)
+@@cu@@
+void vf_harness(void) { VarN* v; unsigned y; Var_ctor_unsigned(v, y); VF_CANARY(); }
+''',
+    entry='Var_ctor_unsigned', kind='proof',
+    desc='Var(unsigned) for all 2^32 values: the stored number equals the argument (INT below 2^31, NUMBER from 2^31 on)',
+    functions=['Var::Var(unsigned)'],
+)
+
+# ---- Var::copy (copy constructor): a string Var gets text storage of its OWN holding the same bytes (strings have value semantics: later assignments to one Var
+# must not show in the other); arrays and objects are shared handles by design (C01 copy constructor)
+copy_unit = Unit(
+    'Var_copy', 'C04',
+    cuts=[TYPES(), Cut('cp', VC, r'^void Var::copy\(const Var& v\)\s*$', members=('_type',),
+              rules=[(r'NEW_STRINGC\(_s, v\._s->length\(\)\);', 'S_NEW_OWN(g_srclen);', None), (r'memcpy\(_s->data\(\), v\._s->data\(\), v\._s->length\(\)\);', 'S_COPY_BYTES(g_srclen);', None),
+                     (r'NEW_STRINGC\(_s, \*v\._s\);', 'S_SHARE();', None), (r'NEW_ARRAYC\(_a, \*v\._a\);', 'g_container_shared = 1;', None), (r'NEW_DICC\(_o, \*v\._o\);', 'g_container_shared = 1;', None)])],
+    text=r'''
+#include "vf_base.h"
+@@types@@
+typedef struct VarT { int _type; } VarT;
+int g_srclen, g_own_len, g_copied, g_text_shared, g_container_shared;
+static void S_NEW_OWN(int n) { __CPROVER_assert(n >= 0, "Array<char>(n): n >= 0"); g_own_len = n; }     /* NEW_STRINGC(_s, n): a fresh Array<char> of n characters */
+static void S_COPY_BYTES(int n) { __CPROVER_assert(g_own_len >= n, "memcpy stays inside the new text"); g_copied = n; }
+static void S_SHARE(void) { g_text_shared = 1; g_own_len = g_srclen; g_copied = g_srclen; }              /* NEW_STRINGC(_s, array): Array copy constructor - shares the block (C01) */
+void Var_copy(VarT* self)
+__CPROVER_requires(__CPROVER_is_fresh(self, sizeof(VarT)) && 0 <= g_srclen && g_srclen <= 1000000 && g_own_len == -1 && g_copied == 0 && g_text_shared == 0 && g_container_shared == 0)
+__CPROVER_ensures(self->_type == STRING ==> (!g_text_shared && g_own_len == g_srclen && g_copied == g_srclen))
+__CPROVER_ensures(((self->_type == ARRAY) || (self->_type == OBJ)) == (g_container_shared != 0))
+__CPROVER_assigns(g_own_len, g_copied, g_text_shared, g_container_shared)
+@@cp@@
+void vf_harness(void) { VarT* v; Var_copy(v); VF_CANARY(); }
+''',
+    entry='Var_copy', kind='proof',
+    desc='Var::copy for every type: a heap string is duplicated (own storage, every byte copied, nothing shared); arrays and objects are shared handles',
+    functions=['Var::copy (copy constructor)'],
+    trusted=['NEW_STRINGC(_s, n) makes a fresh Array<char>(n); NEW_*C(x, array) copy-constructs a handle that shares the block (C01)'],
+)
+UNITS += [ctor_unsigned, copy_unit]
+
 # replay: the units verify single operations on ghost-shaped Vars; the native counterpart is the driver's small-scope search (all string lengths 0..20 x target kinds,
 # own-child assignments for every child kind, clone independence)
 for _u in UNITS:
